@@ -338,6 +338,39 @@ func queryStage(r *ev.Run, th bool) {
 				}
 			}
 		}
+		// triangles that share exactly one corner with t: they can still cross it along a segment that starts at the
+		// shared corner. The two edges at that corner touch by construction; the pair crosses properly exactly when
+		// the edge opposite the corner of one triangle pierces the other.
+		for vi := 0; vi < 3; vi++ {
+			for j := (ti + vi) % step; j < len(ov); j += step {
+				for k := j + 1; k < len(ov); k += 2 {
+					u := [3]iv{t[vi], ov[j], ov[k]}
+					if u[1].sub(u[0]).cross(u[2].sub(u[0])) == (iv{}) {
+						continue
+					}
+					c1 := segTri(u[1], u[2], t[0], t[1], t[2])
+					c2 := segTri(t[(vi+1)%3], t[(vi+2)%3], u[0], u[1], u[2])
+					r.Eval(1)
+					if c1 == qContact || c2 == qContact || vol(t[0], t[1], t[2], u[1]) == 0 || vol(t[0], t[1], t[2], u[2]) == 0 {
+						results[ti].c[2][qContact]++
+						continue
+					}
+					// both other corners of u strictly on one side of t's plane: only the corner is shared
+					cl := qApart
+					if c1 == qProper || c2 == qProper {
+						cl = qProper
+					}
+					results[ti].c[2][cl]++
+					ut := &model3d.Triangle{u[0].c3(), u[1].c3(), u[2].c3()}
+					segs := tri.TriangleCollisions(ut)
+					if (len(segs) > 0) != (cl == qProper) {
+						r.Violation("Triangle/triangle-collisions", fmt.Sprintf("%s against triangle %v sharing its corner %v: %d intersection segments, exact predicates say %s", name, u, t[vi], len(segs), []string{"apart (corner only)", "crossing along a segment from the shared corner"}[cl]),
+							ballCase{"triangle-query", name, nil, []float64{float64(u[0][0]), float64(u[0][1]), float64(u[0][2]), float64(u[1][0]), float64(u[1][1]), float64(u[1][2]), float64(u[2][0]), float64(u[2][1]), float64(u[2][2])}, 0})
+						return
+					}
+				}
+			}
+		}
 	})
 	for _, x := range results {
 		for a := 0; a < 3; a++ {
